@@ -825,7 +825,9 @@ bool BW_MidiSequencer::buildSmfTrackData(const std::vector<std::vector<uint8_t> 
             m_currentPosition.track[tk].pos = m_trackData[tk].begin();
     }
 
-    if(gotGlobalLoopStart && !gotGlobalLoopEnd)
+    // Without a loopEnd marker the loop ends where the song does
+    const bool implicitLoopEnd = gotGlobalLoopStart && !gotGlobalLoopEnd;
+    if(implicitLoopEnd)
     {
         gotGlobalLoopEnd = true;
         loopEndTicks = ticksSongLength;
@@ -845,6 +847,15 @@ bool BW_MidiSequencer::buildSmfTrackData(const std::vector<std::vector<uint8_t> 
     }
 
     buildTimeLine(temposList, loopStartTicks, loopEndTicks);
+
+    /*
+     * The row that carries the last tick of the song may stand earlier in time than the end of the song
+     * (end silence skipping clears the delay in front of a lone End-of-Track): the time of an implicit
+     * loop end is the time the last track ends at, or a seek to a later place inside the loop would be
+     * taken for a seek behind the loop end.
+     */
+    if(implicitLoopEnd && !m_loop.invalidLoop)
+        m_loopEndTime = m_fullSongTimeLength - m_postSongWaitDelay;
 
     return true;
 }
